@@ -89,6 +89,7 @@ structure Block where
   hash    : String
   txs     : List Transmit
   content : String := ""    -- opaque digest of everything else in the block (compared for equality only)
+  created : List Nat := []  -- ids of the upkeeps its `UpkeepCreatedTransaction`s register
 deriving DecidableEq, Repr, Inhabited
 
 /-- block numbers produced by `BlockBroadcaster.run`: `genesis`, then `+1` per tick up to the limit -/
@@ -243,6 +244,7 @@ def RT.latestEvents (reports : List (List String)) (rt : RT) : List Ev :=
 structure SubOut where
   recv   : List Block              -- blocks received from its listener, in order
   slow   : List Block              -- the same, as received by a second consumer that may stop reading for a while
+  active : List Nat                -- ids of the upkeeps its active-upkeep tracker knows at the end (ascending, with repetitions)
   hists  : List (List BlockKey)    -- histories received from its history tracker, in order
   events : List (List Ev)          -- answers of its report tracker, one per query; the last is the final one
   seen   : List Nat                -- per query: how many blocks the node had received when it was asked
@@ -283,6 +285,9 @@ structure Input where
   queries : List Nat                   -- ascending; mid-run queries of every report tracker
   attach  : List Nat                   -- per subscriber: instant (µs) at which it subscribes; 0: before `Start`
   detach  : List Nat                   -- per subscriber: instant (µs) at which it unsubscribes; 0: never
+  upkeeps : List (Nat × List Nat)      -- (block index, ids of the upkeeps created in that block)
+  grace   : Nat                        -- µs a delivery may still be on its way when a subscriber unsubscribes
+                                       -- (the broadcaster's own `maxDelay`; 0 when deliveries are never cut off)
 deriving Repr
 
 /-- the implementation's choices the model is told about -/
@@ -368,6 +373,12 @@ def inWindow (att det t : Nat) : Bool := decide (att ≤ t) && (det == 0 || deci
 def subChain (att det : Nat) (chain : List Block) (times : List Nat) : List Block :=
   ((chain.zip times).filter fun x => inWindow att det x.2).map (·.1)
 
+/-- … and at least `grace` before it unsubscribed: their delivery cannot have been cut off by `Unsubscribe` -/
+def inWindowG (att det grace t : Nat) : Bool := decide (att ≤ t) && (det == 0 || decide (t + grace < det))
+
+def subChainG (att det grace : Nat) (chain : List Block) (times : List Nat) : List Block :=
+  ((chain.zip times).filter fun x => inWindowG att det grace x.2).map (·.1)
+
 /-- arrival order of the blocks `idx` at a subscriber whose deliveries are delayed by `delays`
     (distinct arrival instants): (arrival time in ms, block index) -/
 def arrivalOrder (cadence : Nat) (idx : List Nat) (delays : List Nat) : List (Nat × Nat) :=
@@ -379,7 +390,8 @@ def arrivalOrder (cadence : Nat) (idx : List Nat) (delays : List Nat) : List (Na
 def runChain (inp : Input) (ch : Choices) (blockTxs : List (List Transmit)) : List Block :=
   (List.range inp.count).map fun i =>
     { number := inp.genesis + i, hash := (ch.hashes.getD i ("", "")).1, txs := blockTxs.getD i [],
-      content := (ch.hashes.getD i ("", "")).2 }
+      content := (ch.hashes.getD i ("", "")).2,
+      created := (inp.upkeeps.filter (·.1 == i)).flatMap (·.2) }
 
 /-- `Results()`: every recorded transmit with the number of the block that carries it -/
 def runResults (chain : List Block) (tl : TL) : List Rec :=
@@ -411,7 +423,7 @@ def runSub (inp : Input) (ch : Choices) (chain : List Block) (s : Nat) : SubOut 
   let slow := match ch.slows.getD s none with
     | some ord => ord.filterMap (chain[·]?)
     | none => arrivals
-  { recv := recv, slow := slow, hists := histories numLt arrivals,
+  { recv := recv, slow := slow, active := sortBy (fun a b => decide (a ≤ b)) (arrivals.flatMap (·.created)), hists := histories numLt arrivals,
     events := queries.map (fun q => answer (before q)) ++ [answer arrivals],
     seen := queries.map (fun q => (before q).length) ++ [arrivals.length] }
 
